@@ -138,7 +138,7 @@ Proof. exact query_overtakes_batch. Qed.
 Print Assumptions c03_query_inside_batch_refuted.
 
 (** F21c (known): extended-protocol COPY, the reply to CopyDone has no ReadyForQuery yet *)
-Theorem c03_extended_copy_blocks_refuted : relay_now (mkBel false true false) [fC] = LBlocked [].
+Theorem c03_extended_copy_blocks_refuted : relay_now (mkBel false true) [fC] = LBlocked [].
 Proof. exact extended_copy_blocks. Qed.
 Print Assumptions c03_extended_copy_blocks_refuted.
 
@@ -146,7 +146,7 @@ Print Assumptions c03_extended_copy_blocks_refuted.
 Theorem c03_copydone_single_recv_refuted :
   let fs := [fC; fT; fD 9000; fD 3; fC; fZ] in
   reply_stream fs /\ single_ok recv_break_D recv_break_d 0 fs = false /\
-  recv_now (mkBel false true false) [] fs = Ret (encs [fC; fT; fD 9000]) (mkBel true false false) [fD 3; fC; fZ] /\
+  recv_now (mkBel false true) [] fs = Ret (encs [fC; fT; fD 9000]) (mkBel true false) [fD 3; fC; fZ] /\
   (exists pre, crun_before_fd4aac1 true cst0 [cd 2; cc] = Some (cst0, pre ++ [RecvOnce])).
 Proof. exact single_recv_truncated_before_fd4aac1. Qed.
 Print Assumptions c03_copydone_single_recv_refuted.
@@ -191,7 +191,7 @@ Example mixed_stream :
   relay_now bel0 [fN; fT; fD 5; fS; fD 5; fE; fZ; fT; fZ] =
   Done [encs [fN; fT; fD 5; fS; fD 5; fE; fZ]] bel0 [fT; fZ].
 Proof. vm_compute. reflexivity. Qed.
-Example repaired_TDCG : relay_now bel0 [fT; fD 3; fC; fG] = Done [encs [fT; fD 3; fC; fG]] (mkBel false true false) [].
+Example repaired_TDCG : relay_now bel0 [fT; fD 3; fC; fG] = Done [encs [fT; fD 3; fC; fG]] (mkBel false true) [].
 Proof. exact relay_TDCG_now. Qed.
 (** a ReadyForQuery with an unknown status / a ParameterStatus without its strings fail recv() *)
 Example bad_status : relay_now bel0 [fT; (90, [88])] = LFailed [].
